@@ -243,6 +243,23 @@ def branch_of(r):
     return None
 
 
+class ReplayFR(object):
+    """fill/request element whose k-th request() yields the k-th recorded chunk"""
+
+    def __init__(self, chunks):
+        self.chunks = chunks
+        self.k = 0
+
+    def fill(self, value):
+        pass
+
+    def request(self):
+        k = self.k
+        self.k += 1
+        for r in (self.chunks[k] if k < len(self.chunks) else []):
+            yield r
+
+
 MUTATORS = ["uctx", "udata", "var", "upd", "mkf", "count"]
 
 
@@ -500,17 +517,10 @@ def run_split(tape, res, sc):
                      "Zip of %d branches yielded %r; zipping the stand-alone results gives %r"
                      % (sc.nb, summarize(canon(together)), summarize(canon(exp))))
         return
-    reps = []
-    for b in range(sc.nb):
-        r = Replay([])
-        r.chunks = [[x[0] for x in ch] for ch in alone[b][0]]
-        reps.append(r)
-    z = lena.flow.Zip([lena.core.FillRequest(r, bufsize=1, reset=False, buffer_input=True) for r in reps])
-    # the replay elements are asked chunk by chunk directly
-    exp_chunks = []
-    for k in range(len(together)):
-        gens = [iter(r.chunks[k]) for r in reps]
-        exp_chunks.append(list(z._yield(gens)))
+    reps = [ReplayFR([[x[0] for x in ch] for ch in alone[b][0]]) for b in range(sc.nb)]
+    z = lena.flow.Zip(reps)
+    # the replay elements yield the stand-alone results request by request
+    exp_chunks = [list(z.request()) for _ in range(len(together))]
     if canon(together) != canon(exp_chunks):
         res.viol("C04:%s:branch-differs-from-running-alone" % where,
                  "Zip of %d branches yielded %r; zipping the stand-alone results gives %r"
